@@ -82,7 +82,7 @@ def generate(seed, batch):
     scen['shell']['pdT'] = rng.random() < 0.75
     scen['shell']['uTM'] = rng.choice([0.0, rng.uniform(-0.5, 0.5)])
     # re-definition between two evaluations at the same state (caches must follow the definition)
-    scen['redefine'] = rng.choice([None, None, 'imperfection', 'imperfection_off', 'grid', 'method', 'inc'])
+    scen['redefine'] = rng.choice([None, None, 'imperfection', 'imperfection_off', 'grid', 'method', 'inc', 'material', 'geometry'])
     scen['redef_seed'] = rng.getrandbits(32)
     return scen
 
@@ -366,21 +366,68 @@ def execute(scen):
                 cc.nx, cc.nt = scen2['shell']['nx'], scen2['shell']['nt']
             elif rd == 'inc':
                 scen2['inc'] = 0.5 if scen['inc'] != 0.5 else 0.25
+            elif rd == 'material':
+                if sh['model'].startswith('iso_'):
+                    scen2['shell']['h'] = sh['h'] * 1.6
+                    scen2['shell']['E11'] = sh['E11'] * 0.8
+                    cc.h, cc.E11 = scen2['shell']['h'], scen2['shell']['E11']
+                else:
+                    newstack = [a_ + 15 for a_ in sh['stack']][:max(2, len(sh['stack']) - 1)]
+                    scen2['shell']['stack'] = newstack
+                    scen2['shell']['plyt'] = sh['plyt'] * 1.5
+                    cc.stack = list(newstack)
+                    cc.plyt = scen2['shell']['plyt']
+                    cc.plyts = []
+                    cc.laminaprops = []
+            elif rd == 'geometry':
+                scen2['shell']['r2'] = sh['r2'] * 1.2
+                cc.r2 = scen2['shell']['r2']
+                cc.r1 = None
             inc2 = scen2['inc']
-            fresh = build_shell(scen2)
-            fresh.ni_num_cores = cc.ni_num_cores
-            fresh.calc_fext(silent=True)
             kT_old = cc.calc_kT(c, inc=inc2, silent=True).toarray()
             f_old = np.array(cc.calc_fint(c, inc=inc2, silent=True), dtype=float)
-            kT_new = fresh.calc_kT(c, inc=inc2, silent=True).toarray()
-            f_new = np.array(fresh.calc_fint(c, inc=inc2, silent=True), dtype=float)
-            for nm, a, b in (('kT', kT_old, kT_new), ('fint', f_old, f_new)):
-                sc = np.abs(b).max()
-                df = np.abs(a - b).max()
-                if not (df <= 1e-10 * sc):
-                    raise Violation('J7-redefinition', dict(ctx, redefine=rd, quantity=nm, maxdiff=float(df), scale=float(sc),
-                                                            why='after re-defining the %s the long-lived object differs from a '
-                                                                'freshly built shell with the same definition' % rd))
+            if rd in ('material', 'geometry'):
+                # the linear matrices of a ConeCyl are cached until _clear_matrices(); what C17 demands of the
+                # long-lived object after such a re-definition is that tangent and internal force stay consistent
+                # with EACH OTHER (Jacobian relation, symmetry), not that they equal a fresh object's
+                asym2 = np.abs(kT_old - kT_old.T).max()
+                if not (asym2 <= 1e-12 * np.abs(kT_old).max()):
+                    raise Violation('J7-redefinition', dict(ctx, redefine=rd, why='tangent not symmetric after re-definition',
+                                                            asym=float(asym2)))
+                k0_now = cc.calc_k0(silent=True).toarray()
+
+                def cd2(hh):
+                    fp = np.array(cc.calc_fint(c + hh * d, inc=inc2, silent=True), dtype=float)
+                    fm = np.array(cc.calc_fint(c - hh * d, inc=inc2, silent=True), dtype=float)
+                    return (fp - fm) / (2 * hh), max(np.abs(fp).max(), np.abs(fm).max())
+                E1, t1 = cd2(h)
+                E2, t2 = cd2(h / 2)
+                fd2 = (4 * E2 - E1) / 3.0
+                lin2 = k0_now.dot(d)
+                lhs2 = fd2 - lin2
+                rhs2 = kT_old.dot(d) - lin2
+                noise2 = 256 * np.finfo(float).eps * max(t1, t2) / (h / 2) * 3
+                err2 = np.abs(lhs2 - rhs2).max()
+                scale2 = max(np.abs(rhs2).max(), np.abs(lhs2).max())
+                if not (err2 <= 1e-6 * scale2 + noise2):
+                    v = Violation('J7-redefinition', dict(ctx, redefine=rd, err=float(err2), scale=float(scale2), noise=float(noise2),
+                                                          why='after re-defining the %s, tangent and internal force of the long-lived '
+                                                              'object are no longer consistent (Jacobian relation)' % rd))
+                    v.known_id = 'C17-J5-' + model
+                    raise v
+            else:
+                fresh = build_shell(scen2)
+                fresh.ni_num_cores = cc.ni_num_cores
+                fresh.calc_fext(silent=True)
+                kT_new = fresh.calc_kT(c, inc=inc2, silent=True).toarray()
+                f_new = np.array(fresh.calc_fint(c, inc=inc2, silent=True), dtype=float)
+                for nm, a, b in (('kT', kT_old, kT_new), ('fint', f_old, f_new)):
+                    sc = np.abs(b).max()
+                    df = np.abs(a - b).max()
+                    if not (df <= 1e-10 * sc):
+                        raise Violation('J7-redefinition', dict(ctx, redefine=rd, quantity=nm, maxdiff=float(df), scale=float(sc),
+                                                                why='after re-defining the %s the long-lived object differs from a '
+                                                                    'freshly built shell with the same definition' % rd))
             bump(res['probes'], 'J7_checked_' + rd)
             res['steps'] += 4
         if scale <= 10 * noise:
